@@ -2,7 +2,9 @@ package main
 
 import (
 	"fmt"
+	"go/constant"
 	"go/token"
+	"math"
 	"go/types"
 	"sort"
 	"strings"
@@ -229,6 +231,13 @@ func (e *Eng) runOnce(loopMods map[int]map[string]bool) map[int]map[string]bool 
 			e.cover(st, "requires", e.allProps(), nil, "the precondition is satisfiable")
 		}
 	}
+	e.assumePkgInvs(st)
+	if e.isPkgInit() {
+		// the initialiser body runs once: verify the run in which the guard is still clear
+		if g, ok := e.fn.Pkg.Members["init$guard"].(*ssa.Global); ok {
+			e.hstore(st, "Glob|"+g.String()+"|", nil, types.Typ[types.Bool], T("false"))
+		}
+	}
 	e.entry = st.clone()
 
 	order := rpo(e.fn)
@@ -436,7 +445,7 @@ func (e *Eng) val(fr *Frame, v ssa.Value) Val {
 	case *ssa.Const:
 		return e.constVal(c)
 	case *ssa.Global:
-		return &PtrV{Kind: pGlobal, Fam: "Glob|" + c.String(), Elem: c.Type().(*types.Pointer).Elem(), NonNil: true, Ref: null}
+		return &PtrV{Kind: pGlobal, Fam: "Glob|" + c.String() + "|", Elem: c.Type().(*types.Pointer).Elem(), NonNil: true, Ref: null}
 	case *ssa.Function:
 		return &FuncV{Fn: c, Ref: e.funcRef(c)}
 	case *ssa.Builtin:
@@ -477,8 +486,10 @@ func (e *Eng) constVal(c *ssa.Const) Val {
 			}
 			return bvLit(w, c.Uint64())
 		case b.Info()&types.IsFloat != 0:
-			// opaque: one constant per distinct literal
-			return e.q.Declare("float|"+c.Value.ExactString(), sI64)
+			// arithmetic on floats is opaque, but constants are their IEEE bit patterns, so that
+			// equality of constants is decided exactly
+			f, _ := constant.Float64Val(c.Value)
+			return bvLit(64, math.Float64bits(f))
 		}
 	}
 	return zeroVal(t)
@@ -594,11 +605,29 @@ func (e *Eng) loopHead(fr *Frame, li *loopInfo, st *State, loopMods map[int]map[
 	}
 	// 2. havoc
 	mods := loopMods[h.Index]
+	rowRefine, fieldRefine := e.loopWriteTargets(fr, li)
 	for _, n := range e.sortedHeapNames() {
 		if strings.HasPrefix(n, "G|holds_") {
 			continue
 		}
 		if mods == nil || mods[n] {
+			if bases, ok := refineFor(rowRefine, n, "E|"); ok {
+				// only rows of loop-invariant slices are written in this loop
+				h2 := st.heap[n]
+				for _, b := range bases {
+					h2 = app("store", h2, b, e.fresh(fmt.Sprintf("lh%d_row|%s", li.ord, n), elemSortOf(e.heapNames[n])))
+				}
+				st.heap[n] = h2
+				continue
+			}
+			if refs, ok := refineFor(fieldRefine, n, "F|"); ok {
+				h2 := st.heap[n]
+				for _, r := range refs {
+					h2 = app("store", h2, r, e.fresh(fmt.Sprintf("lh%d_fld|%s", li.ord, n), elemSortOf(e.heapNames[n])))
+				}
+				st.heap[n] = h2
+				continue
+			}
 			if n == "Alloc" {
 				na := e.fresh("Alloc_loop", sI64)
 				e.assume(st, tAnd(app("bvule", st.heap[n], na), app("bvult", na, bvLit(64, 1<<62))))
@@ -850,7 +879,271 @@ func (e *Eng) finish(fr *Frame) {
 	if e.fc.HasMod {
 		e.frameObligations(st)
 	}
+	if e.isPkgInit() {
+		e.pkgInvObligations(st)
+	}
 	if len(e.fc.Ensures) > 0 {
 		e.cover(st, "exit", e.allProps(), nil, "some return is reachable under the assumed callee contracts")
+	}
+}
+
+
+// elemSortOf returns the element sort of an (Array idx el) sort.
+func elemSortOf(sort string) string {
+	inner := sort[len("(Array ") : len(sort)-1]
+	if strings.HasPrefix(inner, "(") {
+		k := matchParen(inner, 0)
+		return strings.TrimSpace(inner[k+1:])
+	}
+	k := strings.Index(inner, " ")
+	return strings.TrimSpace(inner[k+1:])
+}
+
+func refineFor(m map[string][]T, name, prefix string) ([]T, bool) {
+	if m == nil || !strings.HasPrefix(name, prefix) {
+		return nil, false
+	}
+	// family = name without component suffix
+	for fam, ts := range m {
+		if name == fam || strings.HasPrefix(name, fam+"#") || strings.HasPrefix(name, fam+".") || strings.HasPrefix(name, fam+"[") {
+			if ts == nil {
+				return nil, false
+			}
+			return ts, true
+		}
+	}
+	return nil, false
+}
+
+// loopWriteTargets inspects the loop body: if every write to an element family (E|T) goes through
+// IndexAddr on a slice value defined outside the loop, and every write to a field family through
+// FieldAddr on a pointer defined outside the loop, the loop havoc can be restricted to those rows /
+// objects.  Any call that may write memory, append or copy disables the refinement for what it may touch.
+func (e *Eng) loopWriteTargets(fr *Frame, li *loopInfo) (rows map[string][]T, fields map[string][]T) {
+	rows = map[string][]T{}
+	fields = map[string][]T{}
+	inLoop := func(v ssa.Value) bool {
+		if in, ok := v.(ssa.Instruction); ok {
+			return li.body[in.Block()]
+		}
+		return false
+	}
+	kill := func(m map[string][]T, fam string) { m[fam] = nil }
+	add := func(m map[string][]T, fam string, t T) {
+		if cur, ok := m[fam]; ok && cur == nil {
+			return
+		}
+		for _, x := range m[fam] {
+			if x == t {
+				return
+			}
+		}
+		m[fam] = append(m[fam], t)
+	}
+	for b := range li.body {
+		for _, instr := range b.Instrs {
+			switch in := instr.(type) {
+			case *ssa.Store:
+				switch a := in.Addr.(type) {
+				case *ssa.IndexAddr:
+					fam := ""
+					var base T
+					okb := false
+					if sl, ok := under(a.X.Type()).(*types.Slice); ok {
+						fam = "E|" + elemKey(sl.Elem())
+						if !inLoop(a.X) {
+							if sv, ok := fr.vals[a.X].(*SliceV); ok {
+								base, okb = sv.B, true
+							}
+						}
+						if _, isStruct := under(sl.Elem()).(*types.Struct); isStruct {
+							return nil, nil
+						}
+					} else {
+						return nil, nil
+					}
+					if okb {
+						add(rows, fam, base)
+					} else {
+						kill(rows, fam)
+					}
+				case *ssa.FieldAddr:
+					stt := a.X.Type().Underlying().(*types.Pointer).Elem()
+					s := under(stt).(*types.Struct)
+					fam := structFam(stt, fieldName(s, a.Field))
+					if !inLoop(a.X) {
+						if pv, ok := fr.vals[a.X].(*PtrV); ok && pv.Kind == pStruct {
+							add(fields, fam, pv.Ref)
+							continue
+						}
+					}
+					kill(fields, fam)
+				default:
+					// stores through other pointers: cells and globals are separate families; be conservative
+					if _, isAlloc := in.Addr.(*ssa.Alloc); !isAlloc {
+						if _, isGlobal := in.Addr.(*ssa.Global); !isGlobal {
+							return nil, nil
+						}
+					}
+				}
+			case *ssa.MapUpdate:
+			case *ssa.Call:
+				if bi, ok := in.Call.Value.(*ssa.Builtin); ok {
+					switch bi.Name() {
+					case "append", "copy":
+						if sl, ok := under(in.Call.Args[0].Type()).(*types.Slice); ok {
+							kill(rows, "E|"+elemKey(sl.Elem()))
+						}
+					}
+					continue
+				}
+				if fn, ok := in.Call.Value.(*ssa.Function); ok && !in.Call.IsInvoke() {
+					if fc := e.w.Contracts[fn.String()]; fc != nil && fc.HasMod && len(fc.ModSpecs) == 0 {
+						continue // pure callee
+					}
+					if isSpecGenFn(e.w, fn) {
+						continue
+					}
+					if fn.Pkg == nil || e.w.SsaPkgs[fn.Pkg.Pkg.Path()] == nil {
+						if externPolicy(fn) == "pure" && e.w.Contracts[fn.String()] == nil {
+							continue
+						}
+					}
+				}
+				return nil, nil
+			case *ssa.Go, *ssa.Defer, *ssa.RunDefers, *ssa.Send, *ssa.Select:
+				return nil, nil
+			}
+		}
+	}
+	return rows, fields
+}
+
+
+func (e *Eng) isPkgInit() bool {
+	return e.fn.Name() == "init" && e.fn.Signature.Recv() == nil && e.fn.Parent() == nil && e.fn.Pkg != nil && e.fn.Pkg.Func("init") == e.fn
+}
+
+func (e *Eng) pkgInvs() (*ContractFile, string) {
+	if e.fn.Pkg == nil {
+		if e.fn.Parent() != nil && e.fn.Parent().Pkg != nil {
+			p := e.fn.Parent().Pkg.Pkg.Path()
+			return e.w.FileOfPkg[p], p
+		}
+		return nil, ""
+	}
+	p := e.fn.Pkg.Pkg.Path()
+	return e.w.FileOfPkg[p], p
+}
+
+// assumePkgInvs: package invariants hold at the entry of every function except the initialiser.
+func (e *Eng) assumePkgInvs(st *State) {
+	cf, path := e.pkgInvs()
+	if cf == nil || e.isPkgInit() || isSpecGenFn(e.w, e.fn) {
+		return
+	}
+	for _, c := range cf.PkgInvs {
+		fn := e.w.specFn(path + "::" + c.SpecFn)
+		if fn == nil {
+			continue
+		}
+		v, _, _ := e.evalPure(fn, nil, nil, nil, nil, st, st, 0)
+		e.assume(st, v.(T))
+		e.note("package invariant (proved for init, globals never written elsewhere): " + c.Expr)
+	}
+}
+
+// pkgInvObligations: init establishes the invariants, and no other function of the package stores
+// to the package-level variables they mention.
+func (e *Eng) pkgInvObligations(st *State) {
+	cf, path := e.pkgInvs()
+	if cf == nil {
+		return
+	}
+	for _, c := range cf.PkgInvs {
+		fn := e.w.specFn(path + "::" + c.SpecFn)
+		if fn == nil {
+			continue
+		}
+		v, _, _ := e.evalPure(fn, nil, nil, nil, nil, st, st, 0)
+		e.oblige(st, "pkginv.init", c.Label, propsOf(c, e), v.(T), nil, "package initialiser establishes: "+c.Expr)
+		// stability
+		globals := map[*ssa.Global]bool{}
+		var scan func(f *ssa.Function, depth int)
+		seen := map[*ssa.Function]bool{}
+		scan = func(f *ssa.Function, depth int) {
+			if seen[f] || depth > 6 {
+				return
+			}
+			seen[f] = true
+			for _, b := range f.Blocks {
+				for _, in := range b.Instrs {
+					for _, op := range in.Operands(nil) {
+						if g, ok := (*op).(*ssa.Global); ok {
+							globals[g] = true
+						}
+						if cf2, ok := (*op).(*ssa.Function); ok && isSpecGenFn(e.w, cf2) {
+							scan(cf2, depth+1)
+						}
+					}
+				}
+			}
+			for _, af := range f.AnonFuncs {
+				scan(af, depth+1)
+			}
+		}
+		scan(fn, 0)
+		written := ""
+		for _, m := range e.fn.Pkg.Members {
+			check := func(f *ssa.Function) {}
+			var walk func(f *ssa.Function)
+			walk = func(f *ssa.Function) {
+				if f == e.fn || isSpecGenFn(e.w, f) {
+					return
+				}
+				for _, b := range f.Blocks {
+					for _, in := range b.Instrs {
+						if s, ok := in.(*ssa.Store); ok {
+							if g, ok := s.Addr.(*ssa.Global); ok && globals[g] {
+								written = g.Name() + " in " + f.Name()
+							}
+						}
+						// address of the global escapes (other than to a load)
+						for _, op := range in.Operands(nil) {
+							if g, ok := (*op).(*ssa.Global); ok && globals[g] {
+								switch x := in.(type) {
+								case *ssa.UnOp, *ssa.Store, *ssa.DebugRef:
+									_ = x
+								default:
+									written = "&" + g.Name() + " escapes in " + f.Name()
+								}
+							}
+						}
+					}
+				}
+				for _, af := range f.AnonFuncs {
+					walk(af)
+				}
+			}
+			_ = check
+			switch x := m.(type) {
+			case *ssa.Function:
+				walk(x)
+			case *ssa.Type:
+				for _, t := range []types.Type{x.Type(), types.NewPointer(x.Type())} {
+					ms := e.w.Prog.MethodSets.MethodSet(t)
+					for i := 0; i < ms.Len(); i++ {
+						if f := e.w.Prog.MethodValue(ms.At(i)); f != nil && f.Pkg == e.fn.Pkg {
+							walk(f)
+						}
+					}
+				}
+			}
+		}
+		goal := T("true")
+		if written != "" {
+			goal = "false"
+		}
+		e.oblige(st, "pkginv.stable", c.Label, propsOf(c, e), goal, nil, "no function other than init writes the package variables of: "+c.Expr+" "+written)
 	}
 }
